@@ -105,8 +105,8 @@ func runSession(r Round) *outcome {
 		}
 	}
 	rc.release()
-	if !rc.wait(10 * time.Second) {
-		o.failf("C16/session-manager/close-did-not-return", "Close or an in-flight operation did not return within 10s")
+	if ok, dump := rc.waitBlocked(10*time.Second, 40*time.Second); !ok {
+		o.failf("C16/session-manager/close-did-not-return", "Close or an in-flight operation did not return within 10s"+"; goroutines inside the code under test:\n%s", dump)
 		return o
 	}
 	rc.measure(o)
